@@ -55,12 +55,17 @@ def signature(path, keep_raise_args=False, ignore_attr_stores=(),
         # on a path where `x is None` holds, returning x is returning None
         if o[0] == 'return' and ('cmp', 'is', o[1], ('const', None)) in conds:
             out = ('return', ('const', None))
+    nones = set(l[2] for l in conds if l[0] == 'cmp' and l[1] == 'is'
+                and l[3] == ('const', None))
     effects = []
     for e in path.trace:
         if e[0] == 'store':
             if e[1][0] == 'attr' and e[1][2] in ignore_attr_stores:
                 continue
-            effects.append(('store', e[1], e[2]))
+            v = e[2]
+            if v in nones:
+                v = ('const', None)     # `x is None` holds on this path
+            effects.append(('store', e[1], v))
         elif e[0] == 'expr':
             k = e[1]
             if not strict and k[0] == 'call' and sym.Evaluator(
@@ -203,19 +208,52 @@ class BDD(object):
         return n if pol else self.neg(n)
 
 
-def canon(sigs, bdd=None):
+def _eq_atoms(sigs, eqs):
+    for conds, out, eff in sigs:
+        for lit in conds:
+            for at in sym.bool_atoms(lit):
+                if at[0] == 'cmp' and at[1] == '==':
+                    a, b = at[2]
+                    for term, c in ((a, b), (b, a)):
+                        if c[0] in ('const', 'num') and term[0] not in (
+                                'const', 'num'):
+                            eqs.setdefault(term, set()).add((c, at))
+
+
+def _care(bdd, eqs):
+    """One term cannot equal two different constants: decisions are compared
+    on the assignments where that holds."""
+    care = True
+    for term, alts in sorted(eqs.items(), key=repr):
+        alts = sorted(alts, key=repr)
+        for i in range(len(alts)):
+            for j in range(i + 1, len(alts)):
+                if alts[i][0] != alts[j][0]:
+                    both = bdd.apply('and', bdd.of(alts[i][1]),
+                                     bdd.of(alts[j][1]))
+                    care = bdd.apply('and', care, bdd.neg(both))
+    return care
+
+
+def canon(sigs, bdd=None, care=None):
     """Canonical form of a set of path signatures: for every (outcome,
     effects) the boolean function (as a reduced ordered BDD) of the
     conditions under which it is reached.  Independent of how a decision is
     spelled: nested ifs or one conjunction, elif chain or early returns, De
     Morgan forms, a predicate inlined or extracted, redundant tests."""
     bdd = bdd or BDD()
+    if care is None:
+        eqs = {}
+        _eq_atoms(sigs, eqs)
+        care = _care(bdd, eqs)
     by = {}
     for conds, out, eff in sigs:
         cube = True
         for lit in sorted(conds, key=repr):
             cube = bdd.apply('and', cube, bdd.of(lit))
         by[(out, eff)] = bdd.apply('or', by.get((out, eff), False), cube)
+    if care is not True:
+        by = dict((oe, bdd.apply('and', f, care)) for oe, f in by.items())
     return frozenset((oe, f) for oe, f in by.items() if f is not False)
 
 
@@ -224,7 +262,12 @@ def equivalent(a, b):
     if a == b:
         return True
     try:
-        return canon(a - b) == canon(b - a)
+        bdd = BDD()
+        eqs = {}
+        _eq_atoms(a, eqs)
+        _eq_atoms(b, eqs)
+        care = _care(bdd, eqs)
+        return canon(a, bdd, care) == canon(b, bdd, care)
     except (_TooBig, RecursionError):
         return False
 
